@@ -13,6 +13,7 @@ re-slice outside `[0, len)` is the outcome `.panic`.  All theorems quantify over
 -/
 import Mqtt.Proofs.CodecWire
 import Mqtt.Proofs.CodecSpecDecode
+import Mqtt.Proofs.CodecErrCount
 import Mqtt.Proofs.XlateVarint
 import Mqtt.Proofs.XlateHeader
 
@@ -33,6 +34,14 @@ theorem decode_total (t : Nat) (src : Bytes) : decodeNew t src ≠ .panic :=
 theorem decode_count_le (t : Nat) (src : Bytes) (d : Decoded) (h : decodeNew t src = .ok d) :
     d.n ≤ src.length :=
   ((decodeNew_total t src).of_ok h).n_le
+
+/-- … and when `Decode` returns an error, the byte count that comes with it (`decodeNewErrN`: the Go
+variable `total` at the failing `return`, printed as `err n=<count>` by the harness and the model driver and
+compared on every malformed input) is not larger than the input either.  The bound holds for the count
+function on every input; the hypothesis only says when the count is what `Decode` returns. -/
+theorem C04_error_count_le (t : Nat) (src : Bytes) (_h : decodeNew t src = .err) :
+    decodeNewErrN t src ≤ src.length :=
+  decodeNewErrN_le t src
 
 /-- **Every returned field lies inside the decoded packet**: each byte-slice field
 of the decoded message is exactly the bytes `src[off : off+len]` of its view, and
@@ -107,6 +116,12 @@ example : decodeNew 1 [] = .err := by decide
 example : decodeNew 4 [0x40, 0x00] = .err := by decide
 example : decodeNew 10 [0xa2, 0x80, 0xff, 0x91, 0xe7, 0xff, 0xea, 0x82, 0x80, 0x80, 0xff, 0x80, 0x01] = .err := by decide
 example : decodeNew 3 [0x30, 0x03, 0x00, 0x09, 0x61, 0x62, 0x63, 0x64] = .err := by decide
+
+/-- … with the counts the Go code returns: 0 (nothing read), 2 (the fixed header), 1 (the type/flags byte:
+`binary.Uvarint` failed), 4 (header and the two length bytes of the topic) -/
+example : decodeNewErrN 1 [] = 0 ∧ decodeNewErrN 4 [0x40, 0x00] = 2 ∧
+    decodeNewErrN 10 [0xa2, 0x80, 0xff, 0x91, 0xe7, 0xff, 0xea, 0x82, 0x80, 0x80, 0xff, 0x80, 0x01] = 1 ∧
+    decodeNewErrN 3 [0x30, 0x03, 0x00, 0x09, 0x61, 0x62, 0x63, 0x64] = 4 := by decide
 
 /-- the reference decoder on the PUBLISH above (followed by the two bytes of the next packet) -/
 example : Wire.decode 3 [0x32, 0x09, 0x00, 0x03, 0x61, 0x2f, 0x62, 0x00, 0x07, 0x68, 0x69, 0xc0, 0x00] =
